@@ -6,10 +6,11 @@ to the value.  Tie (C): the same model is compared with cassandra.cqltypes (byte
 hand-written marshal model with cassandra.marshal.  The property itself is checked on the implementation by
 comparing the driver's bytes with the Coq specification evaluated on the same value.
 """
-import json, os
+import json, os, time
 from vf import core
 from vf import codec_gen as G
 from vf import codec_run as R
+from vf import marshal_validation as MV
 
 META = {
     'technique': 'Coq proof (induction over type trees; bit-level lemmas for varint/vint) that the model of cqltypes.to_binary equals an '
@@ -34,19 +35,31 @@ def classify(c):
     return tail
 
 
+def gen(ctx):
+    # (T) cassandra/marshal.py regenerated into coq/Gen/MarshalGen.v; MarshalBridge.v proves it equal to MarshalModel.v
+    return MV.gen(ctx, parts=('marshal',))
+
+
 def run(ctx):
+    T = ctx.extra.setdefault('timings_s', {})
+    t0 = time.time()
+    gen(ctx)
     ok = ctx.prove('Props/C02.v')
+    T['prove'] = round(time.time() - t0, 1); t0 = time.time()
     if ctx.tier == 'thorough' and ok:
         ctx.coqchk('Props/C02.v')
     quick = ctx.tier == 'quick'
     cases = R.gen_cases(ctx, 1500 if quick else 20000, 400 if quick else 4000, 500 if quick else 8000, 4 if quick else 6)
+    cases += R.image_cases()
     R.record(ctx, cases)
     ctx.rule = ('random type trees (depth <= %d) x protocol versions x typed values (boundary pools, nulls at every level), special shapes, corpus, '
+                '16-40 KiB vector elements, hand-built Cassandra encodings (tuples/UDTs with empty fields), '
                 'range-boundary stream (min-1, min, max, max+1 of every ranged type, alone and inside containers), shape-error stream, '
                 'mutated-bytes decode stream, direct marshal.py stream; non-trivial = nested type or non-zero scalar; distinct by (stream, pv, type, value)'
                 % (4 if quick else 6))
     ctx.exhaustive = False
     enc_cases = [c for c in cases if 'bs' not in c]
+    T['cases'] = round(time.time() - t0, 1); t0 = time.time()
     # ---- the property on the implementation: driver bytes == specification (or both refuse)
     try:
         bad = ctx.coq_filter(R.MODEL_REQ, '(fun b : bool => b)', R.spec_exprs(enc_cases), shard=200)
@@ -66,8 +79,37 @@ def run(ctx):
                           case={'pv': c['pv'], 't': c['t'], 'v': c['v']}, expected=spec, actual=c['enc'] if c['enc'] is not None else c['enc_exc'],
                           theorem='C02_exact_or_rejects')
         ctx.extra['spec_mismatches'] = len(bad)
+        # "any encoding Cassandra produces decodes to the value Cassandra means by it": where the driver's bytes ARE the
+        # specification's bytes (just checked), what the driver decodes from them must be the value
+        badset = set(bad)
+        for i, c in enumerate(enc_cases):
+            if i not in badset:
+                R.decode_oracle(ctx, c, 'decodes-image', 'C02_decodes_image', 'Cassandra\'s encoding of x does not decode to x')
     except RuntimeError as e:
         ctx.proof_broken.append(('oracle:CassandraSpec', str(e)[-800:]))
+    T['spec_oracle'] = round(time.time() - t0, 1); t0 = time.time()
+    for c in cases:
+        if c['stream'] == 'image':
+            R.image_oracle(ctx, c)
+    # ---- cassandra.marshal against the specification (BigInteger.toByteArray, VIntCoding) and against itself
+    R.marshal_impl_oracle(ctx, ctx.rng, 40 if quick else 1000)
+    try:
+        exprs, meta = R.marshal_spec_exprs(ctx.rng, 40 if quick else 1000)
+        ctx.count('stream', 'marshal-spec', len(exprs))
+        bad = ctx.coq_filter(R.MODEL_REQ, '(fun b : bool => b)', exprs, shard=200)
+        want = ctx.coq_eval(R.MODEL_REQ, [meta[i][3] for i in bad[:10]]) if bad else []
+        for n, i in enumerate(bad[:10]):
+            fn, arg, got, _ = meta[i]
+            ctx.violation('marshal.%s.exact' % fn, 'cassandra.marshal.%s(%r) = %s but the specification says %s'
+                          % (fn, arg, bytes(got).hex() if got is not None else 'raises', want[n][:200]),
+                          case={'fn': fn, 'arg': arg}, expected=want[n], actual=got, theorem='C02_source_%s' % fn)
+    except RuntimeError as e:
+        ctx.proof_broken.append(('oracle:CassandraSpecInt', str(e)[-800:]))
+    T['model+marshal'] = round(time.time() - t0, 1); t0 = time.time()
+    try:
+        MV.validate(ctx, parts=('marshal',))
+    except Exception as e:
+        ctx.proof_broken.append(('T-marshal validation', repr(e)[-400:]))
     # ---- the model against the implementation (bytes and decoded values, decode stream included)
     try:
         bad = ctx.coq_filter(R.MODEL_REQ, '(fun b : bool => b)', R.model_exprs(cases), shard=200)
@@ -91,6 +133,7 @@ def run(ctx):
             pass
     except RuntimeError as e:
         ctx.proof_broken.append(('correspondence:MarshalModel', str(e)[-800:]))
+    T['t_validate'] = round(time.time() - t0, 1)
     ctx.trust('independent specification Model/CassandraSpec.v + CassandraSpecInt.v (transcribed from the protocol spec / Cassandra sources from memory)',
               'hand-written model Model/CqlCodec.v + MarshalModel.v + Utf8Model.v (tied by correspondence only)',
               'harness conversions model value <-> Python object (lib/vf/codec_gen.py)',
